@@ -36,6 +36,9 @@ func (f *g2lFn) params() []nameType {
 			out[i].name = fmt.Sprintf("_x%d", i)
 		}
 	}
+	if wt, ok := f.u.worldFns[f.goName]; ok {
+		out = append(out, nameType{"world", wt})
+	}
 	return out
 }
 
@@ -81,6 +84,14 @@ func (f *g2lFn) compileBody(monad string) (lines []string) {
 		if f.inoutName == "" {
 			f.bad(f.fd, "in-out parameter %s not found", pn)
 		}
+	}
+	f.worldVar, f.worldType = nil, ""
+	if wt, ok := f.u.worldFns[f.goName]; ok {
+		f.worldType = wt
+		f.worldVar = types.NewVar(f.fd.Pos(), f.p.pkg, "world", types.Typ[types.Invalid])
+		f.objNames[f.worldVar] = "world"
+		f.usedName["world"] = true
+		f.retType = "(" + f.retType + " × " + wt + ")"
 	}
 	f.effType = f.u.effFns[f.goName]
 	if f.effType != "" {
